@@ -112,6 +112,13 @@ def gen_case(rng, tier, idx):
     if rng.random() < 0.4:
         cfg["PROBE"] = gen_probe(rng, cfg, 0, total)
         rng.choice(cfg["simulation"]["sessions"]).setdefault("events", []).append("PROBE")
+    if idx % 4 == 3:
+        # some of the configured rules and shocks are user subclasses of the bundled ones (they only extend setup():
+        # a refused first attempt, then the real settings; every handler is inherited)
+        import random as _random
+        from ..runnerdrive import add_first_attempts
+
+        add_first_attempts(_random.Random(idx * 7919 + len(cfg)), cfg, p=0.7)
     return {"drive": "runner", "seed": rng.randrange(1 << 31), "config": cfg, "profile": "sessions"}
 
 
